@@ -648,7 +648,10 @@ def compress_raw(rng, data):
     return co.compress(data) + co.flush()
 
 
-ALLOC_LIMIT_MB = 64          # a request body of a few dozen bytes must not make the server allocate this much
+# A request body of a few dozen bytes must not make the server allocate this much.  The msgpack library's own
+# alloc limit (1e6 elements) lets a forged array32/map32 header cost up to ~16 MB / ~80 MB per decode attempt;
+# that bounded cost is not reported, an allocation beyond it is.
+ALLOC_LIMIT_MB = 200
 
 
 def alloc_witness():
@@ -817,7 +820,7 @@ def load_corpus():
 
 def run(res, tier, seed):
     rng = random.Random(seed * 7919 + 4)
-    nmodel, nmut = (420, 160) if tier == "quick" else (6000, 3000)
+    nmodel, nmut = (380, 140) if tier == "quick" else (6000, 3000)
     t1 = time.time()
     cases = witness_cases() + load_corpus()
     nfixed = len(cases)
@@ -973,7 +976,12 @@ def run(res, tier, seed):
         sig = mut_known.get(code)
         if code == 2:
             blob = b"".join(e.get("body", b"") for e in c["events"] if e["k"] == "raw")
-            sig = "underscore-column-type-change" if b"_x" in blob or b"_" in blob else ("comma-in-column-name-signature-collision" if b"," in blob else None)
+            if re.search(rb"[ ,\xa1-\xbf\xd9]_[A-Za-z0-9]?", blob) or b"\xa0" in blob:
+                sig = "underscore-column-type-change"       # a '_'-prefixed (or empty) key: skipped by the signature
+            elif re.search(rb"\\,|a,b|q:str,a|Z:f64,a:i64,q", blob):
+                sig = "comma-in-column-name-signature-collision"
+            else:
+                sig = None
         if sig and sig in known:
             mut_deaths[sig] = mut_deaths.get(sig, 0) + 1
             continue
